@@ -220,6 +220,10 @@ def main(argv=None):
             # query: an obligation any seed proves is proved)
             for seed_ in (0, 7, 23):
                 solve.Z3_SEED = seed_
+                if seed_:
+                    # the alternative seeds get 2x the normal budget
+                    solve.Z3_TIMEOUT_MS = old_t[0] * 2
+                    solve.CVC5_TIMEOUT_MS = old_t[1] * 2
                 retry = [o for o in retry if o.status not in ("sat", "unsat")]
                 if not retry:
                     break
